@@ -449,6 +449,12 @@ def main():
             collections.deque([1]), collections.OrderedDict(a=1), collections.defaultdict(int, a=1),
             collections.Counter('ab'), collections.ChainMap({'a': 1}), types.MappingProxyType({'a': 1}),
             [1, 'a', None], (1, (2, (3,))), {1, 'a'}, {(1, 2): [3]}, [[], [1]], [(), (1,)], [Colour.RED], {Colour.RED: 1},
+            # duck-typed classes with exactly the methods of a structural ABC ...
+            duck({'__contains__'}, [1]), duck({'__iter__'}, [1]), duck({'__len__'}, [1]), duck({'__contains__', '__iter__'}, [1]),
+            duck({'__contains__', '__iter__', '__len__'}, [1]), duck({'__iter__', '__reversed__'}, [1]), duck({'__iter__', '__next__'}, [1]),
+            # ... and of a nominal one (Sequence / Mapping are not structural: isinstance() says no)
+            duck({'__getitem__', '__len__', '__contains__', '__iter__', '__reversed__', 'index', 'count'}, [1, 2]),
+            duck({'__getitem__', '__len__', '__contains__', '__iter__', 'keys', 'items', 'values', 'get', '__eq__'}, [1, 2]),
         ]
         for i, x in enumerate(fams):
             if is_hint_like(x):
